@@ -397,6 +397,10 @@ func runSpecial(o *hx.Out, k int, r *prng.R, inv string) {
 			}
 		}
 	}
+	if pv == "ok" && (inv == "notary-ok" || inv == "notary-sender" || inv == "notary-atdeposit") && r.Bool() {
+		// a Conflicts(tx) transaction of the payer / a co-signer lands on chain in a foreign block
+		postState(o, k, r, c, decoded, len(raw), rec, onChain, inv, signers, "conflict-onchain")
+	}
 	o.Seen(fmt.Sprintf("special/%s/%d/%d/%d/%s", inv, len(tx.Signers), len(tx.Attributes), len(raw), verdict))
 	if k%20 == 0 {
 		o.Sample(fmt.Sprintf("special %s: signers %s size %d sysfee %d netfee %d (calc %d) -> %s", inv, acctNames(signers), len(raw), tx.SystemFee, tx.NetworkFee, c.calc, verdict))
